@@ -549,6 +549,9 @@ func (e *Exec) concPtr(p *Ptr) *Ptr {
 }
 
 func (e *Exec) load(p *Ptr) Value {
+	if e.race != nil {
+		e.raceAccess(ptrKey(p), false)
+	}
 	if p.Sym == nil {
 		return copyVal(*p.slot())
 	}
@@ -575,6 +578,9 @@ func (e *Exec) load(p *Ptr) Value {
 func (e *Exec) store(p *Ptr, v Value) {
 	if p.Obj.Frozen && !e.w.initializing {
 		panic(unsupported("write to package-level initialised data (" + p.Obj.Note + ")"))
+	}
+	if e.race != nil {
+		e.raceAccess(ptrKey(p), true)
 	}
 	if p.Sym == nil {
 		*p.slot() = copyVal(v)
